@@ -27,7 +27,8 @@ import gen_c15 as G
 
 PROP = "C17"
 RULE = ("seeded random single-cell inputs: common bin table (1-3 chromosomes, fixed/variable bins, <=12 bins) x 1-5 distinct cell names from a grammar "
-        "(letters, digits, spaces, punctuation, no '/', no '::') x arbitrary incl. empty pixel tables x {single bin table, single bin table with extra "
+        "(letters, digits, spaces, punctuation, no '/', no '::'; names starting with every letter of 'cells/', digits, prefixes of each other) given as plain keys or as group-path-like keys "
+        "(/cells/<name>, cells/<name>, /<name>, dir/<name>, a/b/<name>: the last component is the cell name), incl. the round trip keys = list_scool_cells(other file), x arbitrary incl. empty pixel tables x {single bin table, single bin table with extra "
         "columns, per-cell bin tables with per-cell extra columns} x optional parameters in 60% of the cases (dtypes: count as float64 with fractional dyadic values / int64 beyond int32, "
         "an extra pixel value column through columns+dtypes, h5opts, mode a/w incl. a collection already in the file, symmetric_upper=False cells, cell pixels as frame / column dict / iterator of chunks, "
         "ordered x ensure_sorted incl. rows scrambled (within the frame or within each chunk) when ensure_sorted=True, check flags), every cell compared value by value and dtype by dtype, "
@@ -36,7 +37,8 @@ TRUSTED = ["h5py raw reads and object addresses are the observation channel for 
 ASSUMPTIONS = ["cell names are valid HDF5 link names without '/' and without the URI separator '::' (DESIGN section 8)",
                "pixel tables are handed over sorted by (bin1_id, bin2_id) (the documented precondition of create_scool) unless ensure_sorted=True is passed; "
                "create_scool's `ordered` parameter is ignored by the code (unsorted input with ordered=False and without ensure_sorted is stored as is): reported, outside the claimed domain"]
-RESIDUE = ["names containing '/' are mapped to their basename by the code (can collide) and names containing '::' are refused by the URI parser: outside the claimed domain",
+RESIDUE = ["two keys with the same final component silently overwrite each other (the later key in sorted order wins, ncells still counts both) and a key ending in '/' "
+           "gives a file that is not recognised: reported, outside the claimed domain (distinct final components); names containing '::' are refused by the URI parser",
            "extra bin columns are integer-valued in the explored inputs", "HDF5 semantics are modelled by the object store"]
 
 NAME_CHARS = "abcXYZ019 _-.:,;+()[]{}@#%&=!~'"
@@ -52,6 +54,17 @@ def gen_name(rng):
         n = "".join(rng.choice(NAME_CHARS) for _ in range(rng.randint(1, 8)))
         if "::" not in n and n.strip(".") != "":        # "." is HDF5's "this group", not a link name
             return n
+
+
+TRICKY_NAMES = ["cell1", "cell2", "cell10", "sample3", "c", "e1", "l_x", "s", "ss", "cells", "ells", "lls", "cel", "1cell", "e", "l", "sc",
+                "a", "ab", "abc", "cell", "cell1x", "0", "07", "s/".strip("/"), "A", "b"]
+KEY_FORMS = ["{n}", "{n}", "/cells/{n}", "/cells/{n}", "cells/{n}", "/{n}", "dir/{n}", "a/b/{n}", "/cells/cells/{n}", "scool/cells/{n}"]
+
+
+def key_of(case, n):
+    """the key of the cell dict handed to create_scool: the cell name itself or a group-path-like key whose LAST
+    component is the cell name (the branch `if "/" in key` of create_scool)"""
+    return (case.get("keys") or {}).get(n, n)
 
 
 def gen_case(rng):
@@ -72,7 +85,7 @@ def gen_case(rng):
     ncell = rng.randint(1, 5)
     cnames = []
     while len(cnames) < ncell:
-        n = rng.choice(["cell1", "cell2", "cell10", "A", "b"]) if rng.random() < 0.35 else gen_name(rng)
+        n = rng.choice(TRICKY_NAMES) if rng.random() < 0.5 else gen_name(rng)
         if n not in cnames:
             cnames.append(n)
     mode = rng.choice(["single", "single_extra", "dict"])
@@ -96,6 +109,8 @@ def gen_case(rng):
                 c["extra"].setdefault(col, [rng.randint(0, 9) for _ in range(nb)])
     shared_extra = {"gc": [rng.randint(0, 100) for _ in range(nb)]} if mode == "single_extra" else None
     case = {"chromnames": names, "bins": rows, "mode": mode, "shared_extra": shared_extra, "order": cnames, "cells": cells}
+    if rng.random() < 0.6:      # path-like keys
+        case["keys"] = {n: rng.choice(KEY_FORMS).format(n=n) for n in cnames}
     case["windows"] = []
     for _ in range(3):
         a, b = sorted(rng.sample(range(nb + 1), 2)) if nb >= 1 else (0, 0)
@@ -162,6 +177,17 @@ def corpus():
         # the Appendix-B mutation shape: several cells with different content
         {"chromnames": ["chr1", "chr2"], "bins": bins, "mode": "single", "shared_extra": None, "order": ["z", "a", "m"],
          "cells": {"z": {"pixels": p3, "extra": None}, "a": {"pixels": p1, "extra": None}, "m": {"pixels": [(0, 0, 4)], "extra": None}}},
+        # path-like keys: the last component is the cell name; names starting with every letter of "cells/", digits, prefixes
+        {"chromnames": ["chr1", "chr2"], "bins": bins, "mode": "single", "shared_extra": None,
+         "order": ["cell1", "sample3", "e2", "l4", "s5", "c6", "7up", "cell", "cell10", "plain"],
+         "keys": {"cell1": "/cells/cell1", "sample3": "/cells/sample3", "e2": "cells/e2", "l4": "/l4", "s5": "dir/s5", "c6": "a/b/c6",
+                  "7up": "/cells/7up", "cell": "/cells/cells/cell", "cell10": "scool/cells/cell10"},
+         "cells": {n: {"pixels": [(i % 5, 4, i + 1)] if i % 3 else [(0, i % 5, i + 2), (2, 2, 1)], "extra": None}
+                   for i, n in enumerate(["cell1", "sample3", "e2", "l4", "s5", "c6", "7up", "cell", "cell10", "plain"])}},
+        {"chromnames": ["chr1", "chr2"], "bins": bins, "mode": "dict", "shared_extra": None, "order": ["ss", "s", "lls", "ells"],
+         "keys": {"ss": "/cells/ss", "s": "/cells/s", "lls": "cells/lls", "ells": "/cells/ells"},
+         "cells": {"ss": {"pixels": p1, "extra": {"w": [0, 1, 2, 3, 4]}}, "s": {"pixels": p3, "extra": {"w": [5, 6, 7, 8, 9]}},
+                   "lls": {"pixels": p2, "extra": {"w": [1, 1, 1, 1, 1]}}, "ells": {"pixels": [(1, 1, 4)], "extra": {"w": [2, 2, 2, 2, 2]}}}},
         {"chromnames": ["chr1", "chr2"], "bins": bins, "mode": "single", "shared_extra": None, "order": ["f1", "f2"],
          "cells": {"f1": {"pixels": [(0, 1, 1.5), (1, 4, 2.25)], "extra": None}, "f2": {"pixels": [(2, 2, 0.125)], "extra": None}},
          "opts": {"count_dtype": "float64", "extra": None, "h5opts": None, "mode": "w", "symm": True, "chunks": None, "flags": {}, "pre": False}},
@@ -198,7 +224,7 @@ def frames(case):
             b = base.copy()
             for col, vals in case["cells"][n]["extra"].items():
                 b[col] = np.array(vals, dtype=np.int64)
-            bins[n] = b
+            bins[key_of(case, n)] = b
     else:
         bins = base.copy()
         if case["shared_extra"]:
@@ -223,12 +249,12 @@ def frames(case):
             return part
         if o and o["chunks"]:
             k = o["chunks"]
-            px[n] = [scramble(df.iloc[a:a + k]) for a in range(0, max(len(df), 1), k)]      # an iterable of chunks
+            px[key_of(case, n)] = [scramble(df.iloc[a:a + k]) for a in range(0, max(len(df), 1), k)]      # an iterable of chunks
         elif o and o.get("as_dict"):
             sd = scramble(df)
-            px[n] = {col: sd[col].values for col in sd.columns}                              # a column dict
+            px[key_of(case, n)] = {col: sd[col].values for col in sd.columns}                              # a column dict
         else:
-            px[n] = scramble(df)
+            px[key_of(case, n)] = scramble(df)
     return bins, px
 
 
@@ -651,13 +677,35 @@ def run(ctx):
     for _ in range(700 if thorough else 150):
         cases.append((gen_case(rng), "random"))
     results = []
+    roundtrips = []
     for k, (case, kind) in enumerate(cases):
-        results.append(run_impl(d, k, case))
+        r = run_impl(d, k, case)
+        results.append(r)
+        if not case.get("opts") and r["outcome"] == "Ok" and r.get("listing", ["", []])[0] == "Ok" and (kind == "corpus" or k % 5 == 0):
+            # round trip: the paths listed for this file are fed back as the keys of a second create_scool
+            # (a copy, or a subset when there are several cells)
+            listed = list(r["listing"][1])
+            if len(listed) > 2:
+                listed = listed[::2] + listed[-1:]
+            names2 = []
+            for p_ in listed:
+                if p_.split("/")[-1] in case["cells"] and p_.split("/")[-1] not in names2:
+                    names2.append(p_.split("/")[-1])
+            if names2:
+                case2 = copy.deepcopy(case)
+                case2["order"] = names2
+                case2["cells"] = {n: case2["cells"][n] for n in names2}
+                case2["keys"] = {p_.split("/")[-1]: p_ for p_ in listed}
+                roundtrips.append((case2, "roundtrip", run_impl(d, f"{k}rt", case2)))
+                try:
+                    os.remove(os.path.join(d, f"s{k}rt.scool"))
+                except OSError:
+                    pass
         try:
             os.remove(os.path.join(d, f"s{k}.scool"))
         except OSError:
             pass
-    todo = [(case, kind, r) for (case, kind), r in zip(cases, results)]
+    todo = [(case, kind, r) for (case, kind), r in zip(cases, results)] + roundtrips
     for _ in range(4 if thorough else 2):
         todo += history_pass(ctx, d, rng)
     exprs = [model_expr(case, r) for case, kind, r in todo if r["outcome"] == "Ok" and "attrs" in r]
